@@ -22,3 +22,128 @@ Proof.
     { destruct (Z.of_nat (m_retries m) >=? Z.of_nat (c_retry_max c)) eqn:G; [|reflexivity]. apply Z.geb_le in G. lia. }
     rewrite H. split; [reflexivity|]. split; [reflexivity|]. cbn [set_retries m_retries]. lia.
 Qed.
+
+(* ---------------------------------------------------------------- further leaf logic of group C01 *)
+From SV Require Import Gen.DecTypes2 Producer.Actors.
+
+(* the model keeps errors as small integers (None = nil) *)
+Definition gerr_of (o : option Z) : gerr := match o with None => ENil | Some e => EOther e end.
+Definition code_of (e : gerr) : Z :=
+  match e with EOther x => x | EVar _ => E_SHUTTING_DOWN | EK x => x | _ => 0 end.
+
+(* brokerProducer.needsRetry *)
+Lemma needs_retry_is_decgen st m :
+  DecC01.needs_retry (gerr_of (b_closing st)) (gerr_of (cur_lookup (msg_key m) (b_cur st))) = gerr_of (Actors.needs_retry st m).
+Proof. unfold DecC01.needs_retry, Actors.needs_retry. destruct (b_closing st); reflexivity. Qed.
+
+(* brokerProducer.run, the classification of an input message (syn / bounced / bounced chaser / data):
+   interpretation of the regenerated action list on the model's state and effects *)
+Fixpoint bp_acts_state (st : bp) (m : msg) (acts : list bp_action) : bp :=
+  match acts with
+  | [] => st
+  | (BP_set_retry ENil | BP_clear_retry) :: r => bp_acts_state (with_cur st (cur_remove (msg_key m) (b_cur st))) m r
+  | _ :: r => bp_acts_state st m r
+  end.
+Fixpoint bp_acts_effs (c : cfg) (m : msg) (acts : list bp_action) : list effect :=
+  match acts with
+  | [] => []
+  | BP_retry e :: r => retry_msg c m (code_of e) :: bp_acts_effs c m r
+  | BP_inflight_done :: r => EDone m :: bp_acts_effs c m r
+  | _ :: r => bp_acts_effs c m r
+  end.
+
+Lemma bp_input_class_is_decgen c ep st m tn : b_mode st = MRun -> b_wait st = WNone ->
+  bp_core c ep st (BRecv m) =
+  match bp_input_class (m_flags m) (gerr_of (b_closing st)) (gerr_of (cur_lookup (msg_key m) (b_cur st))) tn with
+  | (acts, ExFall) => recv_data c st m
+  | (acts, _) => (bp_acts_state st m acts, bp_acts_effs c m acts, false)
+  end.
+Proof.
+  intros Hm Hw. unfold bp_core, bp_input_class. rewrite Hm, Hw.
+  change (Z.land (m_flags m) 1 =? 1) with (is_syn m). change (Z.land (m_flags m) 2 =? 2) with (is_fin m).
+  destruct (is_syn m).
+  - destruct tn; cbn; destruct st; reflexivity.
+  - rewrite needs_retry_is_decgen. unfold Actors.needs_retry.
+    destruct (b_closing st) as [e|] eqn:Ec.
+    + cbn. reflexivity.
+    + destruct (cur_lookup (msg_key m) (b_cur st)) as [e|]; cbn [gerr_of gerr_eqb negb andb].
+      * destruct (is_fin m); cbn; reflexivity.
+      * destruct (is_fin m); cbn; reflexivity.
+Qed.
+
+(* waitForSpace: the re-check after a response was handled *)
+Lemma wait_recheck_is_decgen st m force :
+  wait_for_space_recheck force (gerr_of (b_closing st)) (gerr_of (cur_lookup (msg_key m) (b_cur st))) =
+  fun overflow => match Actors.needs_retry st m with
+                  | Some e => ExReturn (EOther e)
+                  | None => if negb overflow && negb force then ExReturn ENil else ExFall
+                  end.
+Proof.
+  unfold wait_for_space_recheck. rewrite needs_retry_is_decgen. destruct (Actors.needs_retry st m); reflexivity.
+Qed.
+(* ... and that is the decision bp_core takes for a message parked by waitForSpace(msg, false) *)
+Lemma bp_wait_over_follows_recheck c ep st sent r m :
+  let '(st1, effs) := handle_response c ep st sent r in
+  b_wait st1 = WOver m ->
+  bp_core c ep st (BResp sent r) =
+  match wait_for_space_recheck false (gerr_of (b_closing st1)) (gerr_of (cur_lookup (msg_key m) (b_cur st1)))
+                               (would_overflow c (b_buf st1) m) with
+  | ExReturn ENil => let '(st2, e2, u) := after_over c (with_wait st1 WNone) m in (st2, effs ++ e2, u)
+  | ExReturn e => (with_wait st1 WNone, effs ++ [retry_msg c m (code_of e)], false)
+  | _ => (st1, effs, false)
+  end.
+Proof.
+  unfold bp_core. destruct (handle_response c ep st sent r) as [st1 effs]. intros Hw. rewrite Hw.
+  rewrite wait_recheck_is_decgen. destruct (Actors.needs_retry st1 m); [reflexivity|].
+  destruct (would_overflow c (b_buf st1) m); reflexivity.
+Qed.
+
+(* partitionProducer.dispatch: the retry-level decision tree is the one pp_step follows *)
+Lemma pp_level_class_is_decgen (r hwm : nat) (flags : Z) :
+  pp_level_class (Z.of_nat r) (Z.of_nat hwm) flags =
+  if (hwm <? r)%nat then ([PP_new_high_watermark (Z.of_nat r); PP_backoff (Z.of_nat r)], ExFall)
+  else if (0 <? hwm)%nat then
+    if (r <? hwm)%nat then
+      ((if Z.land flags 2 =? 2 then [PP_expect_chaser (Z.of_nat r) false; PP_inflight_done] else [PP_buffer (Z.of_nat r)]), ExContinue)
+    else if Z.land flags 2 =? 2 then ([PP_expect_chaser (Z.of_nat hwm) false; PP_flush_retry_buffers; PP_inflight_done], ExContinue)
+    else ([], ExFall)
+  else ([], ExFall).
+Proof.
+  unfold pp_level_class.
+  assert (A : (Z.of_nat r >? Z.of_nat hwm) = (hwm <? r)%nat).
+  { destruct (hwm <? r)%nat eqn:E; [apply Nat.ltb_lt in E; apply Z.gtb_lt; lia|apply Nat.ltb_ge in E].
+    destruct (Z.of_nat r >? Z.of_nat hwm) eqn:G; [apply Z.gtb_lt in G; lia|reflexivity]. }
+  assert (B : (Z.of_nat hwm >? 0) = (0 <? hwm)%nat).
+  { destruct (0 <? hwm)%nat eqn:E; [apply Nat.ltb_lt in E; apply Z.gtb_lt; lia|apply Nat.ltb_ge in E].
+    destruct (Z.of_nat hwm >? 0) eqn:G; [apply Z.gtb_lt in G; lia|reflexivity]. }
+  assert (C : (Z.of_nat r <? Z.of_nat hwm) = (r <? hwm)%nat).
+  { destruct (r <? hwm)%nat eqn:E; [apply Nat.ltb_lt in E; apply Z.ltb_lt; lia|apply Nat.ltb_ge in E; apply Z.ltb_ge; lia]. }
+  rewrite A, B, C. destruct (hwm <? r)%nat; [reflexivity|]. destruct (0 <? hwm)%nat; [|reflexivity].
+  destruct (r <? hwm)%nat; destruct (Z.land flags 2 =? 2); reflexivity.
+Qed.
+(* the model's branch for a data message below the current level: it is parked at its own level *)
+Lemma pp_buffer_branch c t p st m stamp ls :
+  fst (pp_level_class (Z.of_nat (m_retries m)) (Z.of_nat (p_hwm st)) (m_flags m)) = [PP_buffer (Z.of_nat (m_retries m))] ->
+  (m_retries m < length (p_levels st))%nat ->
+  pp_step c t p st m false stamp ls =
+  (mkPp (p_hwm st) (push_buf (m_retries m) m (p_levels st)) (p_has_bp st) (p_leader st), []).
+Proof.
+  rewrite pp_level_class_is_decgen. intros H Hl. unfold pp_step. rewrite andb_false_r.
+  destruct (p_hwm st <? m_retries m)%nat; [discriminate|]. destruct (0 <? p_hwm st)%nat; [|discriminate].
+  destruct (m_retries m <? p_hwm st)%nat.
+  - change (Z.land (m_flags m) 2 =? 2) with (is_fin m) in H. apply Nat.ltb_lt in Hl.
+    assert (E : (length (p_levels st) <=? m_retries m)%nat = false) by (apply Nat.leb_gt, Nat.ltb_lt, Hl). rewrite E.
+    destruct (is_fin m); [discriminate|]. destruct st; reflexivity.
+  - destruct (Z.land (m_flags m) 2 =? 2); discriminate.
+Qed.
+
+(* partitionProducer.dispatch: sequence stamping of a fresh application message *)
+Lemma pp_stamp_is_decgen c m sq ep :
+  pp_stamp_sequence (m_seq m) (m_epoch m) (m_hasseq m) (c_idem c) (Z.of_nat (m_retries m)) (m_flags m) sq ep =
+  let m' := if c_idem c && fresh_pass m && is_data m then set_stamp m sq ep else m in
+  (m_seq m', m_epoch m', m_hasseq m', ExFall).
+Proof.
+  unfold pp_stamp_sequence, fresh_pass, is_data, F_DATA.
+  assert (A : (Z.of_nat (m_retries m) =? 0) = (m_retries m =? 0)%nat) by (destruct (m_retries m); reflexivity).
+  rewrite A. destruct (c_idem c && (m_retries m =? 0)%nat && (m_flags m =? 0)); reflexivity.
+Qed.
